@@ -42,5 +42,13 @@ MUTANTS = {
    "      new_kwargs = f.keywords.copy()\n", "      new_kwargs = {}\n"),
   ('m12_partial_frozen_args_after_call_args', 'malt/impl/api.py',
    "    new_args = f.args + args\n", "    new_args = args + f.args\n"),
+  # ---- call sites inside converted code: whatever iterable is starred, converted_call receives a tuple; every nested
+  # scope keeps its own global / nonlocal declarations
+  ('m13_starred_iterable_not_copied_to_tuple', 'malt/converters/call_trees.py',
+   "    self._argspec.append(\n        ast.Call(\n            ast.Name('tuple', ctx=ast.Load()),\n            args=[a],\n            keywords=[]))\n",
+   "    self._argspec.append(a)\n"),
+  ('m14_nested_nonlocal_declaration_leaks_to_enclosing_function', 'malt/pyct/static_analysis/activity.py',
+   "      if not self.isolated:\n        self.parent.hidden_names.update(self.isolated_names | self.hidden_names)\n",
+   "      self.parent.nonlocals.update(self.nonlocals)\n      if not self.isolated:\n        self.parent.hidden_names.update(self.isolated_names | self.hidden_names)\n"),
  ],
 }
